@@ -123,7 +123,11 @@ def build(tier, seed, exclude):
     # the path is a function of the input values only: ==-equal values of different type, resolved one after the other in one process
     g.cond("h_equal_values_sequence", "i: int, j: int", ["0 <= i < 9 and 0 <= j < 9"], """
         a, b = _EQV[T.real(i)], _EQV[T.real(j)]
-        pa, pb = _resolve_any(a), _resolve_any(b)
+        # CrossHair skips functools caches while tracing (libimpl/functoolslib), which would hide memoisation defects:
+        # the two resolutions run outside the tracer, on the pool indices the solver picked
+        from crosshair.tracers import NoTracing
+        with NoTracing():
+            pa, pb = _resolve_any(a), _resolve_any(b)
         T.reach()
         for v, p in ((a, pa), (b, pb)):
             want = "out_%s.txt" % (v,)
